@@ -122,6 +122,55 @@ def body_catchfilter(backing, n, workers, backend, sel, with_key, x0, x1, x2, x3
         return True
 
 
+def body_catchfilter_random(backing, n, workers, epochs, x0, x1, x2, x3, r0, r1, r2, r3, *sel):
+    """catch_filter_exception above a per-epoch reshuffle, the same prefetching object iterated again and again: every epoch omits exactly the
+    examples whose evaluation raised in *that* epoch, in the order an equally seeded failure-free twin defines; foreign types propagate"""
+    xs = rt.mk(n, [x0, x1, x2, x3])
+    rs = rt.mk(n, [r0, r1, r2, r3])
+    for r in rs:
+        rt.assume(0 <= r)
+        rt.assume(r <= 2)
+    keys = rt.KEYS[:n]
+
+    def mk():
+        if backing == 'dict':
+            return DictDataset({k: (x, r, k) for k, x, r in zip(keys, xs, rs)})
+        return ListDataset([(x, r, k) for k, x, r in zip(keys, xs, rs)])
+
+    def f(ex):
+        x, r, k = ex
+        if r == 1:
+            raise FilterException(x)
+        if r == 2:
+            raise E2(x)
+        return (x, k)
+    rng_a, rng_b = rt.Rng(sel=list(sel)), rt.Rng(sel=list(sel))
+    p = mk().shuffle(True, rng=rng_a).map(f).prefetch(workers, 2, catch_filter_exception=True)
+    twin = mk().shuffle(True, rng=rng_b)
+    for _ in range(epochs):
+        order = list(twin)
+        exp, err = [], None
+        for (x, r, k) in order:
+            if r == 1:
+                continue
+            if r == 2:
+                err = x
+                break
+            exp.append((x, k))
+        got = []
+        try:
+            for v in p:
+                got.append(v)
+        except E2 as e:
+            if err is None or got != exp or e.args[0] != err:
+                return False
+            continue
+        if err is not None or got != exp:
+            return False
+    rt.reached()
+    return True
+
+
 def _conds(tier, seed):
     out = []
     nmax = 3 if tier == 'quick' else 4
@@ -137,6 +186,10 @@ def _conds(tier, seed):
 
 
 FAMILIES = [
+    Family('catchfilter_random', body_catchfilter_random, ['backing', 'n', 'workers', 'epochs'],
+           [(f'x{i}', 'int') for i in range(4)] + [(f'r{i}', 'int') for i in range(4)] + [(f's{i}', 'int') for i in range(9)],
+           lambda tier, seed: [(b, n, w, e) for b in ('list', 'dict') for n in (1, 2, 3) for w in (1, 2) for e in (2, 3) if n * e <= (4 if tier == 'quick' else 6)],
+           timeout=dict(quick=150, thorough=900), desc='catch_filter_exception above a per-epoch reshuffle, several epochs on one prefetching object (serial contract stub)'),
     Family('catchfilter', body_catchfilter, ['backing', 'n', 'workers', 'backend', 'sel', 'with_key'],
            [(f'x{i}', 'int') for i in range(4)] + [(f'r{i}', 'int') for i in range(4)], _conds, timeout=dict(quick=60, thorough=300),
            desc='prefetch(..., catch_filter_exception=...) on the single-thread path, the thread pool and a process pool (serial contract stub; for process pools arguments, results and exceptions cross the boundary as pickled copies)'),
